@@ -215,6 +215,37 @@ func checkUser(t hx.TB, test, where, ctx string, u user) {
 	}
 }
 
+// slotsDisjoint: no operand slot belongs to two operands, neither of one instruction nor of two
+// instructions of a function (a write through a shared slot changes more than one operand).
+func slotsDisjoint(t hx.TB, test, ctx string, f *ir.Func) {
+	owner := map[uintptr]string{}
+	visit := func(where string, u user) {
+		var ops []*value.Value
+		if p := lx.Guard(func() { ops = u.Operands() }); p != nil {
+			return
+		}
+		for k, o := range ops {
+			addr := reflect.ValueOf(o).Pointer()
+			me := fmt.Sprintf("%s slot %d", where, k)
+			if prev, ok := owner[addr]; ok {
+				hx.Fail(t, test, "ll", ctx, "%s of %s is the same memory as %s: writing through it changes two operands", me, f.Ident(), prev)
+			}
+			owner[addr] = me
+		}
+		hx.HistN("slots_checked_for_sharing", len(ops))
+	}
+	for bi, b := range f.Blocks {
+		for ii, in := range b.Insts {
+			if u, ok := in.(user); ok {
+				visit(fmt.Sprintf("block %d inst %d (%T)", bi, ii, in), u)
+			}
+		}
+		if u, ok := b.Term.(user); ok {
+			visit(fmt.Sprintf("block %d terminator (%T)", bi, b.Term), u)
+		}
+	}
+}
+
 type succer interface{ Succs() []*ir.Block }
 
 // checkSuccs checks the successor view of a terminator against the expected targets (by block identity).
@@ -337,6 +368,7 @@ func checkModule(t hx.TB, test string, m *am.Module, im *ir.Module, how string) 
 		if len(af.Blocks) != len(f.Blocks) {
 			continue
 		}
+		slotsDisjoint(t, test, ctx, f)
 		for bi, ab := range af.Blocks {
 			b := f.Blocks[bi]
 			for ii, in := range b.Insts {
@@ -370,6 +402,7 @@ func checkParsed(t hx.TB, test, src, x string, pm *ir.Module) {
 		for _, b := range f.Blocks {
 			byIdent[b.Ident()] = b
 		}
+		slotsDisjoint(t, test, ctx, f)
 		for bi, b := range f.Blocks {
 			for ii, in := range b.Insts {
 				if u, ok := in.(user); ok {
